@@ -194,6 +194,8 @@ struct Task {
     uint32_t alloc_count = 0;
     FILE *wr = nullptr, *rd = nullptr;
     size_t wr_bytes = 0, rd_pos = 0;
+    uint8_t *alt_stack = nullptr; // simulator code called from inside library calls runs here (see alt_call)
+    bool on_alt = false;
     uintptr_t self_id = 0; // pthread_self() as integer
     uintptr_t tls_probe = 0;
 };
@@ -239,6 +241,12 @@ struct Sim {
 extern Sim g_sim;
 extern thread_local Task *t_self;
 
+// Runs fn(arg) on the calling task's alternate stack. Everything the simulator does from inside a
+// library call (scheduling, allocation bookkeeping, handler and stream logging) goes through this, so
+// that it leaves nothing behind on the stack the library is running on: a library local that is read
+// before it is written (undefined, but not the subject of any claimed property) then sees the same
+// residue whether or not the call was preempted.
+void alt_call(void (*fn)(void *), void *arg);
 void sim_global_init(const char *argv0);
 void run_pass(const Plan &plan, const PassCfg &cfg, Strategy &strat, PassResult &out);
 void sim_event();                 // explicit yield point (harness callbacks)
